@@ -300,6 +300,16 @@ func cmdCheck(args []string) int {
 			}
 			passed, tr := runRecipe(root, *repo, rc)
 			recipeLines = append(recipeLines, fmt.Sprintf("recipe %s expect=%s passed=%v", rc.Name, rc.Expect, passed))
+			if rc.Expect == "pass" && !passed && !strings.Contains(tr, "VIOLATED") {
+				// the test failed without a property assertion firing (build problem, environment, cleanup race):
+				// run it once more; if it still fails that way it is reported as not evaluated, not as a violation
+				passed, tr = runRecipe(root, *repo, rc)
+				if !passed && !strings.Contains(tr, "VIOLATED") {
+					fmt.Printf("NOTE: recipe %s could not be evaluated (the test failed without a property assertion): %s\n", rc.Name, strings.ReplaceAll(tr, "\n", " | "))
+					recipeLines = append(recipeLines, fmt.Sprintf("recipe %s not evaluated", rc.Name))
+					continue
+				}
+			}
 			switch {
 			case rc.Expect == "pass" && !passed:
 				nViol++
